@@ -53,6 +53,7 @@ Faults(a) ==
          { NoFault, Absent }
     \cup { Truncate(n) : n \in TruncPoints(a) }
     \cup { CorruptLen(q[1], q[2]) : q \in { p \in (1..NE(a)) \X Deltas : p[2] # 0 /\ a.entries[p[1]].size + p[2] >= -8 } }
+    \cup { CorruptOrig(i, d) : i \in 1..NE(a), d \in {6, -1, 268435456} }
 
 CaseJson(a, f) ==
     LET out == Read(a, f)
